@@ -261,13 +261,76 @@ def corpus_case(ctx, r: dict) -> None:
                 r["transform"], do_shrink=False)
 
 
+def vector_case(rep, r: dict) -> None:
+    """vectorised lattices (a scan over a drift length / a quadrupole strength): every optimisation keeps the total length
+    *per vector entry* and tracks every entry like the original"""
+    import cheetah
+    B = len(r["d"])
+    F64 = torch.float64
+    t = lambda v: torch.tensor(v, dtype=F64)   # noqa: E731
+
+    def mk():
+        return cheetah.Segment([
+            cheetah.Drift(length=t(r["d"]), name="d0", dtype=F64),
+            cheetah.Quadrupole(length=t(0.2), k1=t(r["k1"]), name="q0", dtype=F64),
+            cheetah.Marker(name="m0"),
+            cheetah.Drift(length=t(r["d2"]), name="d1", dtype=F64),
+            cheetah.Quadrupole(length=t(0.3), k1=t(0.0), name="q1", dtype=F64),
+        ], name="root")
+    P = np.array(r["particles"], dtype=float)
+    for bt in ("ParameterBeam", "ParticleBeam"):
+        b = LT.particle_beam(P, r["energy"]) if bt == "ParticleBeam" else LT.parameter_beam_from(P, r["energy"])
+        seg = mk()
+        ref = seg.track(b)
+        L0 = seg.length.detach().reshape(-1) * torch.ones(B, dtype=F64)
+        for tname in TRANSFORMS:
+            try:
+                new = apply_transform(mk(), tname, b, r["except_for"])
+                L1 = new.length.detach()
+                out = new.track(b)
+            except Exception as e:  # noqa: BLE001
+                rep.fail("falsifier", f"C08|{tname}|vectorised lattice|raises", f"{tname} on a lattice with vectorised lengths {r['d']}: {type(e).__name__}: {e}", r)
+                return
+            if tname != "no_zero_length" or True:
+                ok = L1.numel() in (1, B) and bool(((L1.reshape(-1) * torch.ones(B, dtype=F64) - L0).abs() <= 1e-12 * (1 + L0.abs())).all())
+                if not ok:
+                    rep.fail("falsifier", f"C08|{tname}|vectorised lattice|length", f"{tname} (except_for={r['except_for']}) on a lattice whose drift "
+                             f"length is {r['d']}: total length {L1.tolist()}, the original has {L0.tolist()}", dict(r, transform=tname))
+                    return
+            a_, b_ = (out.particles, ref.particles) if bt == "ParticleBeam" else (out._mu, ref._mu)
+            if tuple(a_.shape) != tuple(b_.shape) or not bool(((a_ - b_).abs() <= 1e-9 * (b_.abs() + 1e-6)).all()):
+                rep.fail("falsifier", f"C08|{tname}|vectorised lattice|track {bt}", f"{tname} on a vectorised lattice changes the tracking result ({bt})",
+                         dict(r, transform=tname))
+                return
+
+
+def vector_probe(ctx, n: int) -> None:
+    rep, rng = ctx.report, ctx.rng
+    for _ in range(n):
+        B = int(rng.integers(2, 6))
+        r = {"kind": "vector_lattice", "d": np.round(rng.uniform(0.1, 1.0, B), 3).tolist(), "d2": float(E.pick(rng, 0.4, 1.1)),
+             "k1": np.round(rng.uniform(-2, 2, B), 3).tolist() if rng.random() < 0.5 else float(E.pick(rng, 1.0, -0.7)),
+             "except_for": [["q0"], [], ["d1"], ["q1"]][int(rng.integers(4))], "energy": float(E.energy(rng)),
+             "particles": LT.gen_particles(rng, 6).tolist()}
+        rep.fals_cases += 1
+        rep.count("probe:vector-lattice")
+        rep.case(("vector_lattice", B, tuple(r["except_for"])), None)
+        vector_case(rep, r)
+
+
 def run(ctx) -> None:
     stub_correspondence(ctx, ctx.n(80, 2000))
     falsifier(ctx, ctx.n(40, 800))
+    vector_probe(ctx, ctx.n(10, 250))
 
 
 def replay(ctx, data) -> bool:
     r = data["replay"]
+    if r.get("kind") == "vector_lattice":
+        from common import Report
+        rp = Report("C08")
+        vector_case(rp, r)
+        return bool(rp.failures)
     if r.get("kind") != "lattice":
         return False
     try:
